@@ -264,13 +264,32 @@ pub fn run_case(ctx: &mut Ctx, idx: u64) {
     let mut nontrivial = false;
     for hay in &case.haystacks {
         for m in [Method::FindIter, Method::OverlapIter, Method::NoSuffixIter] {
-            let (exp, _) = p.search(slice_twin(m), hay, usize::MAX, loose_budget(hay.len(), ns));
+            let exp = match p.try_search(slice_twin(m), hay, usize::MAX, loose_budget(hay.len(), ns)) {
+                Ok(x) => x.0,
+                Err(_) => {
+                    ctx.rep.count("slice_search_panicked", 1); // not C12's statement
+                    continue;
+                }
+            };
             let streaming = if rng.chance(1, 2) { Some(rng.range(1, 5)) } else { None };
             let inspect = rng.chance(1, 2);
             let extra = rng.usize_below(3);
             let hint = *rng.pick(&[Hint::Unknown, Hint::Exact, Hint::Exact, Hint::LowerBound]);
             ctx.rep.note("source_size_hints", &format!("{hint:?}"));
-            let (got, log) = run_logged_hint(&p, m, hay, streaming, inspect, extra, exp.len() + 1, hint);
+            let logged = std::panic::catch_unwind(std::panic::AssertUnwindSafe(|| run_logged_hint(&p, m, hay, streaming, inspect, extra, exp.len() + 1, hint)));
+            daachorse::verif::set_step_budget(None);
+            let (got, log) = match logged {
+                Ok(x) => x,
+                Err(_) => {
+                    ctx.rep.violation(
+                        "iter-vs-slice",
+                        format!("{} panics where {} returns on the same haystack", m.name(), slice_twin(m).name()),
+                        idx,
+                        mismatch_detail(&case, &spec, hay, m, &[], &exp),
+                    );
+                    continue;
+                }
+            };
             ctx.rep.count("histories_checked", 1);
             ctx.rep.count("events_checked", log.len() as u64);
             if streaming.is_some() {
